@@ -216,10 +216,10 @@ def snap_key(snap):
 # ---------------------------------------------------------------------------------------------
 # one sequential "process" that performs a list of definitions (used by histories and crash follow-ups)
 # ---------------------------------------------------------------------------------------------
-def seq_run(scratch, clock, segments, crash=None):
+def seq_run(scratch, clock, segments, crash=None, bufsize=None):
     """segments: list of processes; each process = (write_bytecode, [ops]); op = ('define', decl, opt) |
     ('tick',) | ('forget',). Returns (run, results) with results[proc] = list of (op index, decl, outcome)."""
-    run = fsx.Run(pkts_dir(scratch), clock, (STEM,), sequential=True, crash=crash)
+    run = fsx.Run(pkts_dir(scratch), clock, (STEM,), sequential=True, crash=crash, bufsize=bufsize)
     results = []
 
     def make_body(ops, res):
@@ -300,14 +300,15 @@ print('RESULT ' + common.dumps(out))
 '''
 
 
-def real_define(scratch, clock, decl, opt, write_bytecode):
+def real_define(scratch, clock, decl, opt, write_bytecode, optimize=False):
     """runs one definition in a REAL interpreter process on the directory as it is; only the time stamp of
     files the process itself writes is set to the harness clock. Returns the outcome."""
     code = CHILD % {'verif': common.VERIF, 'dwb': not write_bytecode, 'clock': clock, 'scratch': scratch, 'decl': decl, 'opt': opt}
     env = dict(os.environ)
     env['PYTHONHASHSEED'] = '0'
     env.pop('PYTHONDONTWRITEBYTECODE', None)
-    r = subprocess.run([sys.executable, '-c', code], capture_output=True, text=True, env=env, timeout=120)
+    env.pop('PYTHONOPTIMIZE', None)
+    r = subprocess.run([sys.executable] + (['-O'] if optimize else []) + ['-c', code], capture_output=True, text=True, env=env, timeout=120)
     for line in r.stdout.splitlines():
         if line.startswith('RESULT '):
             out = common.loads(line[7:])
@@ -330,7 +331,7 @@ sys.path.insert(0, %(verif)r)
 sys.dont_write_bytecode = %(dwb)r
 from mc import common, cache, fsx
 out = os.fdopen(os.dup(1), 'w')
-run = fsx.RemoteRun(cache.pkts_dir(%(scratch)r), %(clock)r, %(pid)r, sys.stdin, out, %(wb)r)
+run = fsx.RemoteRun(cache.pkts_dir(%(scratch)r), %(clock)r, %(pid)r, sys.stdin, out, %(wb)r, %(bufsize)r)
 run.attach()
 mod = cache.load_factories(%(scratch)r)
 res, K = cache.define(mod, %(decl)r, %(opt)r)
@@ -339,7 +340,7 @@ out.flush()
 '''
 
 
-def real_conc_replay(scratch, clock0, log, decls, opt, wb):
+def real_conc_replay(scratch, clock0, log, decls, opt, wb, bufsize=None):
     """replays the global step order `log` [(pid, op, relpath, detail) | (None,'tick',..)] with two real
     interpreter processes held at every interposed step. Returns (results per process, error or None)."""
     env = dict(os.environ)
@@ -348,7 +349,7 @@ def real_conc_replay(scratch, clock0, log, decls, opt, wb):
     procs = []
     for pid in (0, 1):
         code = CONC_CHILD % {'verif': common.VERIF, 'dwb': not wb[pid], 'scratch': scratch, 'clock': clock0, 'pid': pid, 'wb': wb[pid],
-                             'decl': decls[pid], 'opt': opt}
+                             'decl': decls[pid], 'opt': opt, 'bufsize': bufsize}
         procs.append(subprocess.Popen([sys.executable, '-c', code], stdin=subprocess.PIPE, stdout=subprocess.PIPE, stderr=subprocess.PIPE,
                                       text=True, env=env, bufsize=1))
     clock = clock0
